@@ -198,20 +198,28 @@ Lag(f) == [rows |-> f.rows, cols |-> [j \in 1..NCols(f) |-> [i \in 1..NRows(f) |
 \* withdraw observations IN PLACE: row i of column j (j = 0: of every column)
 Poke(f, i, j) == [rows |-> f.rows,
                   cols |-> [c \in 1..NCols(f) |-> [r \in 1..NRows(f) |-> IF r = i /\ (j = 0 \/ c = j) THEN NaN ELSE f.cols[c][r]]]]
+\* an observation ARRIVES in place: row i of column j (j = 0: of every column) becomes the value v
+Put(f, i, j, v) == [rows |-> f.rows,
+                    cols |-> [c \in 1..NCols(f) |-> [r \in 1..NRows(f) |-> IF r = i /\ (j = 0 \/ c = j) THEN v ELSE f.cols[c][r]]]]
+PutValue(i) == 900 + i          \* the value that arrives in row i (told apart from every cell of an input)
 DropFirst(f) == KeepRows(f, LAMBDA i : i > 1)
 DropLast(f)  == KeepRows(f, LAMBDA i : i < NRows(f))
-DeriveKinds  == {"extend", "calendar", "lag", "poke", "head", "tail", "copy", "values", "arith"}
+DeriveKinds  == {"extend", "calendar", "lag", "poke", "put", "head", "tail", "copy", "values", "arith"}
 PositionalKinds == DeriveKinds \ {"calendar"}         \* what can be done to an array (it has no labels)
 Derive(d, f, n0) ==
     CASE d.kind = "extend"   -> Extend(f, d.k, n0)
       [] d.kind = "calendar" -> Reindex(f, Idx(n0 + d.k))      \* back onto the full calendar (+ k later days)
       [] d.kind = "lag"      -> Lag(f)
       [] d.kind = "poke"     -> Poke(f, d.i, d.j)
+      [] d.kind = "put"      -> Put(f, d.i, d.j, PutValue(d.i))
       [] d.kind = "head"     -> DropLast(f)
       [] d.kind = "tail"     -> DropFirst(f)
       [] OTHER               -> f         \* copy / values / arith (x * 1): another OBJECT with the same contents
-\* the derivations that make sense on every frame of F (poke needs its cell to exist)
-DeriveOK(d, F) == d.kind = "poke" => \A f \in F : d.i <= NRows(f) /\ d.j <= NCols(f)
+\* The caller may equally edit an INPUT object in place between two calls on it (poke / put): the second call is judged on
+\* the contents it has then.
+\* the derivations that make sense on every frame of F (an in-place edit needs its cell to exist)
+InPlaceKinds == {"poke", "put"}       \* these edit the object itself; the others make a new object
+DeriveOK(d, F) == d.kind \in InPlaceKinds => \A f \in F : d.i >= 1 /\ d.i <= NRows(f) /\ d.j <= NCols(f)
 
 \* ---------------------------------------------------------------------------------------------
 \* mechanism: the single forward scan with a carried value and a run counter (what pandas'
